@@ -68,7 +68,7 @@ def lex(data) -> dict:
     return tok
 
 
-def concretize(f, r, merge=False, shuffle=True, lower=False) -> list[str]:
+def concretize(f, r, merge=False, shuffle=True, lower=False, late_headers=False) -> list[str]:
     """token file of BMSMC -> text lines.  Lines may be merged when they share (measure, channel, d),
     and are written in a shuffled order."""
     out = ["#PLAYER 1", "#TITLE Song Title", "#ARTIST Some One", f"#BPM {60000.0 * T / f['bpm0']:g}", "#PLAYLEVEL 7",
@@ -105,8 +105,13 @@ def concretize(f, r, merge=False, shuffle=True, lower=False) -> list[str]:
         lines = [[k[0], k[1], v] for k, v in merged.items()]
     if shuffle:
         r.shuffle(lines)
+    late = []
+    if late_headers:
+        # header lines may stand anywhere in the file: move some behind the data
+        late = [h for h in out if h.startswith(("#WAV", "#TITLE", "#GENRE"))]
+        out = [h for h in out if h not in late]
     out.append("")
     for m, ch, pairs in lines:
         s = "".join(pairs)
         out.append(f"#{m:03}{ch}:{s.lower() if lower else s}")
-    return out
+    return out + late
